@@ -201,7 +201,8 @@ def order_source(ctx: Ctx, expr: ast.AST, inst, depth: int = 0) -> Tuple[str, st
                 if name in NOT_GENERATION_ORDERED or name.split('.')[-1].startswith(('dfs_', 'bfs_')):
                     return 'unordered', name
                 if name in ORDER_PRESERVING and e.args:
-                    return order_source(ctx, e.args[0], i, depth + 1)
+                    src = e.args[1] if name == 'builtins.filter' and len(e.args) > 1 else e.args[0]
+                    return order_source(ctx, src, i, depth + 1)
                 return 'unknown', name
             if t[0] == 'func':
                 unit = t[1]
